@@ -334,7 +334,15 @@ fn c02_extras(r: &mut StdRng, out: &mut Out, n: usize) {
         let modes: Vec<u8> = (0..np).map(|_| r.gen_range(0..3)).collect();
         let c = Collect(Pieces { pieces: &pieces, fail_at, modes: &modes }, follow);
         let res = match catch(|| postcard::to_allocvec(&c)) {
-            Ok(Ok(b)) => json!({"ok":1,"bytes":jb(&b)}),
+            Ok(Ok(b)) => {
+                // C01: what was collected from Display comes back as that string, followed by the next field
+                let back = match catch(|| postcard::take_from_bytes::<(String, u8)>(&b).map(|((s, f), rest)| (s, f, rest.len()))) {
+                    Ok(Ok((s, f, rest))) => json!({"ok":1,"s":jb(s.as_bytes()),"f":f,"rest":rest}),
+                    Ok(Err(e)) => json!({"ok":0,"err":errname(&e)}),
+                    Err(p) => json!({"ok":0,"err":"panic","at":p}),
+                };
+                json!({"ok":1,"bytes":jb(&b),"back":back})
+            }
             Ok(Err(e)) => json!({"ok":0,"err":errname(&e)}),
             Err(p) => json!({"ok":0,"err":"panic","at":p}),
         };
